@@ -3,7 +3,7 @@
    _clear / _seek_from_null ([core] mode). *)
 From Coq Require Import List ZArith Bool Lia ZifyBool.
 From TskVerif Require Import Base.Common C06.Model C06.BasicProofs C06.ListFacts C06.Valid
-  C06.CursorProofs C06.WriteLoops.
+  C06.CursorProofs C06.WriteLoops C06.NumEdges.
 Import ListNotations.
 Open Scope Z_scope.
 
@@ -18,6 +18,10 @@ Definition tree_ok (t : tree) : Prop :=
   t_index t = p_index (t_pos t) /\ t_left t = p_left (t_pos t) /\ t_right t = p_right (t_pos t) /\
   ((pos_null (t_pos t) /\ arrays_at ts t (-1)) \/
    (pos_ok ts (t_pos t) /\ arrays_at ts t (bp ts (t_index t)))).
+
+(* position whose covering edges the arrays hold; the edge counter is their number *)
+Definition cur_x (t : tree) : Z := if t_index t =? -1 then -1 else bp ts (t_index t).
+Definition ne_ok (t : tree) : Prop := t_num_edges t = num_edges_at ts (cur_x t).
 
 (* ---- which edges a cursor range visits ---- *)
 
@@ -76,6 +80,13 @@ Qed.
 
 (* ---- the two loops of tsk_tree_next ---- *)
 
+Lemma edge_loop_wloop_eq sel order d n fuel j stop t :
+  d = 1 \/ d = -1 -> stop = j + d * Z.of_nat n -> (n < fuel)%nat ->
+  (forall p, In p (positions j d n) -> 0 <= p < zlen order) ->
+  edge_loop fuel ts d order (sel_body sel) j stop t = wloop ts sel (map (zn order) (positions j d n)) t.
+Proof. intros Hd -> Hf Hp. apply edge_loop_wloop; assumption. Qed.
+
+
 Lemma apply_diffs_next t x b :
   arrays_at ts t x -> x < b ->
   (forall v, endpoint ts v -> (v <= x <-> v < b)) ->
@@ -83,7 +94,8 @@ Lemma apply_diffs_next t x b :
   p_out_stop (t_pos t) = cnt_le (RO ts) b ->
   p_in_ord (t_pos t) = OIns -> p_in_start (t_pos t) = cnt_lt (LI ts) b ->
   p_in_stop (t_pos t) = cnt_le (LI ts) b ->
-  exists t2, apply_diffs core ts 1 t = Ok t2 /\ frame t t2 /\ arrays_at ts t2 b.
+  exists t2, apply_diffs core ts 1 t = Ok t2 /\ frame t t2 /\ arrays_at ts t2 b /\
+             (t_num_edges t = num_edges_at ts x -> t_num_edges t2 = num_edges_at ts b).
 Proof.
   intros A Hxb Hbet O1 O2 O3 I1 I2 I3.
   pose proof (cnt_lt_bounds (RO ts) b) as B1. pose proof (cnt_le_bounds (RO ts) b) as B2.
@@ -96,6 +108,10 @@ Proof.
   set (ni := Z.to_nat (cnt_le (LI ts) b - cnt_lt (LI ts) b)).
   set (es_r := map (zn (ts_O ts)) (positions (cnt_lt (RO ts) b) 1 nr)).
   set (es_i := map (zn (ts_I ts)) (positions (cnt_lt (LI ts) b) 1 ni)).
+  assert (PR : forall p, In p (positions (cnt_lt (RO ts) b) 1 nr) -> 0 <= p < zlen (ts_O ts)).
+  { intros p Hp. apply In_positions in Hp as [i [Hi ->]]. rewrite (v_O_len ts V). fold M. lia. }
+  assert (PI : forall p, In p (positions (cnt_lt (LI ts) b) 1 ni) -> 0 <= p < zlen (ts_I ts)).
+  { intros p Hp. apply In_positions in Hp as [i [Hi ->]]. rewrite (v_I_len ts V). fold M. lia. }
   assert (InR : forall e, In e es_r <-> exists pos, cnt_lt (RO ts) b <= pos < cnt_le (RO ts) b /\ zn (ts_O ts) pos = e).
   { intros e. unfold es_r. rewrite In_ids. split.
     - intros [i [Hi E]]. exists (cnt_lt (RO ts) b + 1 * i). split; [lia|exact E].
@@ -104,32 +120,42 @@ Proof.
   { intros e. unfold es_i. rewrite In_ids. split.
     - intros [i [Hi E]]. exists (cnt_lt (LI ts) b + 1 * i). split; [lia|exact E].
     - intros [pos [Hp E]]. exists (pos - cnt_lt (LI ts) b). split; [lia|]. rewrite <- E. f_equal. lia. }
-  destruct (transition ts V t x b es_r es_i (fun _ => true) A) as (t1 & t2 & W1 & W2 & F & A2).
-  - intros e He. apply InR in He as [pos [Hp <-]]. apply (v_O_rng ts V). fold M. lia.
-  - intros e He. apply InI in He as [pos [Hp <-]]. apply (v_I_rng ts V). fold M. lia.
-  - intros e ed He G. apply InR in He. apply (O_range_iff b e ed G) in He.
+  assert (Rr : forall e, In e es_r -> 0 <= e < num_edges ts).
+  { intros e He. apply InR in He as [pos [Hp <-]]. apply (v_O_rng ts V). fold M. lia. }
+  assert (Ri : forall e, In e es_i -> 0 <= e < num_edges ts).
+  { intros e He. apply InI in He as [pos [Hp <-]]. apply (v_I_rng ts V). fold M. lia. }
+  assert (R1 : forall e ed, In e es_r -> get (ts_edges ts) e = Ok ed -> covers ed x = true /\ covers ed b = false).
+  { intros e ed He G. apply InR in He. apply (O_range_iff b e ed G) in He.
     destruct (endpoints_of e ed G) as (EL & ER & R1 & R2).
-    pose proof (Hbet _ EL). unfold covers. lia.
-  - intros e ed G Cx Cy. apply InR. apply (O_range_iff b e ed G).
-    destruct (endpoints_of e ed G) as (EL & ER & R1 & R2).
-    pose proof (Hbet _ ER). unfold covers in Cx, Cy. lia.
-  - intros e ed He G _. apply InI in He. apply (I_range_iff b e ed G) in He.
-    destruct (endpoints_of e ed G) as (EL & ER & R1 & R2). unfold covers. lia.
-  - intros e ed G Cy Cx. split; [|reflexivity]. apply InI. apply (I_range_iff b e ed G).
-    destruct (endpoints_of e ed G) as (EL & ER & R1 & R2).
-    pose proof (Hbet _ EL). unfold covers in Cx, Cy. lia.
-  - exists t2. split; [|split; [exact F|exact A2]].
-    unfold apply_diffs. rewrite O1, O2, O3, I1, I2, I3. cbn [order_list bind].
+    pose proof (Hbet _ EL). unfold covers. lia. }
+  assert (R2 : forall e ed, get (ts_edges ts) e = Ok ed -> covers ed x = true -> covers ed b = false -> In e es_r).
+  { intros e ed G Cx Cy. apply InR. apply (O_range_iff b e ed G).
+    destruct (endpoints_of e ed G) as (EL & ER & R1' & R2').
+    pose proof (Hbet _ ER). unfold covers in Cx, Cy. lia. }
+  assert (J1 : forall e ed, In e es_i -> get (ts_edges ts) e = Ok ed -> (fun _ : edge => true) ed = true ->
+                            covers ed b = true /\ covers ed x = false).
+  { intros e ed He G _. apply InI in He. apply (I_range_iff b e ed G) in He.
+    destruct (endpoints_of e ed G) as (EL & ER & R1' & R2'). unfold covers. lia. }
+  assert (J2 : forall e ed, get (ts_edges ts) e = Ok ed -> covers ed b = true -> covers ed x = false ->
+                            In e es_i /\ (fun _ : edge => true) ed = true).
+  { intros e ed G Cy Cx. split; [|reflexivity]. apply InI. apply (I_range_iff b e ed G).
+    destruct (endpoints_of e ed G) as (EL & ER & R1' & R2').
+    pose proof (Hbet _ EL). unfold covers in Cx, Cy. lia. }
+  destruct (transition ts V t x b es_r es_i (fun _ => true) A Rr Ri R1 R2
+              (fun e ed a1 a2 a3 => proj1 (J1 e ed a1 a2 a3)) J2) as (t1 & t2 & W1 & W2 & F & A2).
+  exists t2. split; [|split; [exact F|split; [exact A2|]]].
+  - unfold apply_diffs. rewrite O1, O2, O3, I1, I2, I3. cbn [order_list bind].
     rewrite (edge_loop_ext ts 1 (ts_O ts) _ _ body_remove_sel).
-    replace (cnt_le (RO ts) b) with (cnt_lt (RO ts) b + 1 * Z.of_nat nr) at 1 by lia.
-    rewrite edge_loop_wloop; [|left; reflexivity|unfold scan_fuel; unfold M, num_edges, zlen in *; lia|].
-    2:{ intros p Hp. apply In_positions in Hp as [i [Hi ->]]. rewrite (v_O_len ts V). fold M. lia. }
+    rewrite (edge_loop_wloop_eq _ (ts_O ts) 1 nr);
+      [|left; reflexivity|lia|unfold scan_fuel; unfold M, num_edges, zlen in *; lia|exact PR].
     fold es_r. rewrite W1. cbn [bind].
     rewrite (edge_loop_ext ts 1 (ts_I ts) _ _ body_insert_sel).
-    replace (cnt_le (LI ts) b) with (cnt_lt (LI ts) b + 1 * Z.of_nat ni) at 1 by lia.
-    rewrite edge_loop_wloop; [|left; reflexivity|unfold scan_fuel; unfold M, num_edges, zlen in *; lia|].
-    2:{ intros p Hp. apply In_positions in Hp as [i [Hi ->]]. rewrite (v_I_len ts V). fold M. lia. }
+    rewrite (edge_loop_wloop_eq _ (ts_I ts) 1 ni);
+      [|left; reflexivity|lia|unfold scan_fuel; unfold M, num_edges, zlen in *; lia|exact PI].
     fold es_i. exact W2.
+  - apply (transition_ne ts t x b es_r es_i (fun _ => true) t1 t2); auto.
+    + apply NoDup_ids; [apply (NoDup_O ts V)|left; reflexivity|exact PR].
+    + apply NoDup_ids; [apply (NoDup_I ts V)|left; reflexivity|exact PI].
 Qed.
 
 (* ---- the two loops of tsk_tree_prev ---- *)
@@ -141,7 +167,8 @@ Lemma apply_diffs_prev t x y :
   p_out_stop (t_pos t) = cnt_lt (LI ts) x - 1 ->
   p_in_ord (t_pos t) = ORem -> p_in_start (t_pos t) = cnt_le (RO ts) x - 1 ->
   p_in_stop (t_pos t) = cnt_lt (RO ts) x - 1 ->
-  exists t2, apply_diffs core ts (-1) t = Ok t2 /\ frame t t2 /\ arrays_at ts t2 y.
+  exists t2, apply_diffs core ts (-1) t = Ok t2 /\ frame t t2 /\ arrays_at ts t2 y /\
+             (t_num_edges t = num_edges_at ts x -> t_num_edges t2 = num_edges_at ts y).
 Proof.
   intros A Hyx Hbet O1 O2 O3 I1 I2 I3.
   pose proof (cnt_lt_bounds (RO ts) x) as B1. pose proof (cnt_le_bounds (RO ts) x) as B2.
@@ -154,6 +181,10 @@ Proof.
   set (ni := Z.to_nat (cnt_le (RO ts) x - cnt_lt (RO ts) x)).
   set (es_r := map (zn (ts_I ts)) (positions (cnt_le (LI ts) x - 1) (-1) nr)).
   set (es_i := map (zn (ts_O ts)) (positions (cnt_le (RO ts) x - 1) (-1) ni)).
+  assert (PR : forall p, In p (positions (cnt_le (LI ts) x - 1) (-1) nr) -> 0 <= p < zlen (ts_I ts)).
+  { intros p Hp. apply In_positions in Hp as [i [Hi ->]]. rewrite (v_I_len ts V). fold M. lia. }
+  assert (PI : forall p, In p (positions (cnt_le (RO ts) x - 1) (-1) ni) -> 0 <= p < zlen (ts_O ts)).
+  { intros p Hp. apply In_positions in Hp as [i [Hi ->]]. rewrite (v_O_len ts V). fold M. lia. }
   assert (InR : forall e, In e es_r <-> exists pos, cnt_lt (LI ts) x <= pos < cnt_le (LI ts) x /\ zn (ts_I ts) pos = e).
   { intros e. unfold es_r. rewrite In_ids. split.
     - intros [i [Hi E]]. exists (cnt_le (LI ts) x - 1 + -1 * i). split; [lia|exact E].
@@ -162,32 +193,42 @@ Proof.
   { intros e. unfold es_i. rewrite In_ids. split.
     - intros [i [Hi E]]. exists (cnt_le (RO ts) x - 1 + -1 * i). split; [lia|exact E].
     - intros [pos [Hp E]]. exists (cnt_le (RO ts) x - 1 - pos). split; [lia|]. rewrite <- E. f_equal. lia. }
-  destruct (transition ts V t x y es_r es_i (fun _ => true) A) as (t1 & t2 & W1 & W2 & F & A2).
-  - intros e He. apply InR in He as [pos [Hp <-]]. apply (v_I_rng ts V). fold M. lia.
-  - intros e He. apply InI in He as [pos [Hp <-]]. apply (v_O_rng ts V). fold M. lia.
-  - intros e ed He G. apply InR in He. apply (I_range_iff x e ed G) in He.
-    destruct (endpoints_of e ed G) as (EL & ER & R1 & R2). unfold covers. lia.
-  - intros e ed G Cx Cy. apply InR. apply (I_range_iff x e ed G).
-    destruct (endpoints_of e ed G) as (EL & ER & R1 & R2).
-    pose proof (Hbet _ EL). unfold covers in Cx, Cy. lia.
-  - intros e ed He G _. apply InI in He. apply (O_range_iff x e ed G) in He.
-    destruct (endpoints_of e ed G) as (EL & ER & R1 & R2).
-    pose proof (Hbet _ EL). unfold covers. lia.
-  - intros e ed G Cy Cx. split; [|reflexivity]. apply InI. apply (O_range_iff x e ed G).
-    destruct (endpoints_of e ed G) as (EL & ER & R1 & R2).
-    pose proof (Hbet _ ER). unfold covers in Cx, Cy. lia.
-  - exists t2. split; [|split; [exact F|exact A2]].
-    unfold apply_diffs. rewrite O1, O2, O3, I1, I2, I3. cbn [order_list bind].
+  assert (Rr : forall e, In e es_r -> 0 <= e < num_edges ts).
+  { intros e He. apply InR in He as [pos [Hp <-]]. apply (v_I_rng ts V). fold M. lia. }
+  assert (Ri : forall e, In e es_i -> 0 <= e < num_edges ts).
+  { intros e He. apply InI in He as [pos [Hp <-]]. apply (v_O_rng ts V). fold M. lia. }
+  assert (R1 : forall e ed, In e es_r -> get (ts_edges ts) e = Ok ed -> covers ed x = true /\ covers ed y = false).
+  { intros e ed He G. apply InR in He. apply (I_range_iff x e ed G) in He.
+    destruct (endpoints_of e ed G) as (EL & ER & R1 & R2). unfold covers. lia. }
+  assert (R2 : forall e ed, get (ts_edges ts) e = Ok ed -> covers ed x = true -> covers ed y = false -> In e es_r).
+  { intros e ed G Cx Cy. apply InR. apply (I_range_iff x e ed G).
+    destruct (endpoints_of e ed G) as (EL & ER & R1' & R2').
+    pose proof (Hbet _ EL). unfold covers in Cx, Cy. lia. }
+  assert (J1 : forall e ed, In e es_i -> get (ts_edges ts) e = Ok ed -> (fun _ : edge => true) ed = true ->
+                            covers ed y = true /\ covers ed x = false).
+  { intros e ed He G _. apply InI in He. apply (O_range_iff x e ed G) in He.
+    destruct (endpoints_of e ed G) as (EL & ER & R1' & R2').
+    pose proof (Hbet _ EL). unfold covers. lia. }
+  assert (J2 : forall e ed, get (ts_edges ts) e = Ok ed -> covers ed y = true -> covers ed x = false ->
+                            In e es_i /\ (fun _ : edge => true) ed = true).
+  { intros e ed G Cy Cx. split; [|reflexivity]. apply InI. apply (O_range_iff x e ed G).
+    destruct (endpoints_of e ed G) as (EL & ER & R1' & R2').
+    pose proof (Hbet _ ER). unfold covers in Cx, Cy. lia. }
+  destruct (transition ts V t x y es_r es_i (fun _ => true) A Rr Ri R1 R2
+              (fun e ed a1 a2 a3 => proj1 (J1 e ed a1 a2 a3)) J2) as (t1 & t2 & W1 & W2 & F & A2).
+  exists t2. split; [|split; [exact F|split; [exact A2|]]].
+  - unfold apply_diffs. rewrite O1, O2, O3, I1, I2, I3. cbn [order_list bind].
     rewrite (edge_loop_ext ts (-1) (ts_I ts) _ _ body_remove_sel).
-    replace (cnt_lt (LI ts) x - 1) with (cnt_le (LI ts) x - 1 + -1 * Z.of_nat nr) at 1 by lia.
-    rewrite edge_loop_wloop; [|right; reflexivity|unfold scan_fuel; unfold M, num_edges, zlen in *; lia|].
-    2:{ intros p Hp. apply In_positions in Hp as [i [Hi ->]]. rewrite (v_I_len ts V). fold M. lia. }
+    rewrite (edge_loop_wloop_eq _ (ts_I ts) (-1) nr);
+      [|right; reflexivity|lia|unfold scan_fuel; unfold M, num_edges, zlen in *; lia|exact PR].
     fold es_r. rewrite W1. cbn [bind].
     rewrite (edge_loop_ext ts (-1) (ts_O ts) _ _ body_insert_sel).
-    replace (cnt_lt (RO ts) x - 1) with (cnt_le (RO ts) x - 1 + -1 * Z.of_nat ni) at 1 by lia.
-    rewrite edge_loop_wloop; [|right; reflexivity|unfold scan_fuel; unfold M, num_edges, zlen in *; lia|].
-    2:{ intros p Hp. apply In_positions in Hp as [i [Hi ->]]. rewrite (v_O_len ts V). fold M. lia. }
+    rewrite (edge_loop_wloop_eq _ (ts_O ts) (-1) ni);
+      [|right; reflexivity|lia|unfold scan_fuel; unfold M, num_edges, zlen in *; lia|exact PI].
     fold es_i. exact W2.
+  - apply (transition_ne ts t x y es_r es_i (fun _ => true) t1 t2); auto.
+    + apply NoDup_ids; [apply (NoDup_I ts V)|right; reflexivity|exact PR].
+    + apply NoDup_ids; [apply (NoDup_O ts V)|right; reflexivity|exact PI].
 Qed.
 
 (* ---- clear / init ---- *)
@@ -201,6 +242,9 @@ Proof.
     split; [apply zlen_parent_at|apply zlen_edges_at|apply zlen_parent_at|apply zlen_edges_at]; exact V.
 Qed.
 
+Lemma ne_ok_clear t : ne_ok (tree_clear core ts t).
+Proof. unfold ne_ok, cur_x, tree_clear; simpl. symmetry. apply (num_edges_outside ts V). lia. Qed.
+
 Lemma tree_clear_ok t : tree_ok t -> tree_ok (tree_clear core ts t) /\ t_index (tree_clear core ts t) = -1.
 Proof.
   intros H. destruct (tree_ok_len t H) as [Lp Le]. split; [|reflexivity].
@@ -210,6 +254,9 @@ Proof.
   replace (length (t_parent t)) with (Z.to_nat (ts_N ts + 1)) by lia.
   replace (length (t_edge t)) with (Z.to_nat (ts_N ts + 1)) by lia. split; reflexivity.
 Qed.
+
+Lemma ne_ok_init : ne_ok (tree_init ts).
+Proof. unfold ne_ok, cur_x, tree_init; simpl. symmetry. apply (num_edges_outside ts V). lia. Qed.
 
 Lemma tree_init_ok : tree_ok (tree_init ts) /\ t_index (tree_init ts) = -1.
 Proof.
@@ -228,8 +275,6 @@ Proof.
   - cbn [bind]. eauto.
 Qed.
 
-(* position of the arrays of a tree satisfying the invariant *)
-Definition cur_x (t : tree) : Z := if t_index t =? -1 then -1 else bp ts (t_index t).
 
 Lemma tree_ok_cases t : tree_ok t ->
   (t_index t = -1 /\ pos_null (t_pos t) /\ arrays_at ts t (-1)) \/
@@ -249,7 +294,8 @@ Proof. intros [i [Hi <-]]. apply bp_range; assumption. Qed.
 (* ---- tsk_tree_next ---- *)
 
 Lemma tree_next_ok t : tree_ok t ->
-  exists t' r, tree_next core ts t = Ok (t', r) /\ tree_ok t' /\ t_index t' = nxt (t_index t).
+  exists t' r, tree_next core ts t = Ok (t', r) /\ tree_ok t' /\ t_index t' = nxt (t_index t) /\
+               (ne_ok t -> ne_ok t').
 Proof.
   intros H. pose proof H as (Hi & Hl & Hr & Hd).
   assert (PI : pos_inv ts (t_pos t)) by (destruct Hd as [[N _]|[P _]]; [left|right]; assumption).
@@ -263,7 +309,7 @@ Proof.
     { unfold next_pos. fold T. rewrite (proj2 (Z.eqb_eq k' T) E). reflexivity. }
     rewrite EP. simpl negb. cbv iota.
     eexists; eexists; split; [reflexivity|].
-    split.
+    split; [|split; [|intros _; apply ne_ok_clear]].
     + unfold tree_ok, tree_clear; simpl. repeat split. left. split; [unfold pos_null; simpl; auto|].
       destruct (outside_null ts V (-1) ltac:(lia)) as [P E']. unfold arrays_at; simpl.
       rewrite !map_const, P, E'. unfold zlen in Lp, Le.
@@ -281,7 +327,7 @@ Proof.
       destruct (apply_diffs_next (with_pos t (mkPos 0 (bp ts 0) (bp ts 1) DFwd
                  (cnt_lt (LI ts) (bp ts 0)) (cnt_le (LI ts) (bp ts 0)) OIns
                  (cnt_lt (RO ts) (bp ts 0)) (cnt_le (RO ts) (bp ts 0)) ORem)) (-1) (bp ts 0))
-        as (t2 & D & F & A2); try reflexivity.
+        as (t2 & D & F & A2 & NE2); try reflexivity.
       * exact A.
       * rewrite (v_bp0 ts V). lia.
       * intros v Hv. apply endpoint_nonneg in Hv. rewrite (v_bp0 ts V). lia.
@@ -290,12 +336,14 @@ Proof.
         destruct (update_ok t2) as [t3 U]; [rewrite F4; simpl; fold T; lia|].
         rewrite U. cbn [bind]. eexists; eexists; split; [reflexivity|].
         apply update_index in U as (U1 & U2 & U3 & U4 & U5 & U6 & U7).
-        split.
+        split; [|split].
         -- unfold tree_ok. rewrite U1, U2, U3, U4, F4. simpl. repeat split. right.
            split.
            ++ rewrite <- EP, Hk. apply next_pos_ok; fold T; lia.
            ++ destruct A2 as [A21 A22]. unfold arrays_at. rewrite U5, U6. split; assumption.
         -- rewrite U1, F4. simpl. unfold nxt. fold k'. rewrite Hk. replace (0 =? T) with false by lia. reflexivity.
+        -- intros Hn. unfold ne_ok, cur_x. rewrite U7, U1, F4. simpl. apply NE2. simpl.
+           unfold ne_ok, cur_x in Hn. rewrite I0 in Hn. exact Hn.
     + (* from tree k to tree k + 1 *)
       assert (Hk : 0 <= k' < T) by (unfold k'; lia).
       assert (EP : next_pos ts k' = mkPos k' (bp ts k') (bp ts (k' + 1)) DFwd
@@ -306,7 +354,7 @@ Proof.
       destruct (apply_diffs_next (with_pos t (mkPos k' (bp ts k') (bp ts (k' + 1)) DFwd
                  (cnt_lt (LI ts) (bp ts k')) (cnt_le (LI ts) (bp ts k')) OIns
                  (cnt_lt (RO ts) (bp ts k')) (cnt_le (RO ts) (bp ts k')) ORem)) (bp ts (t_index t)) (bp ts k'))
-        as (t2 & D & F & A2); try reflexivity.
+        as (t2 & D & F & A2 & NE2); try reflexivity.
       * exact A.
       * apply (v_bp_strict ts V); fold T; unfold k'; lia.
       * intros v Hv. unfold k'. apply (between ts V); [fold T; lia|exact Hv].
@@ -315,12 +363,14 @@ Proof.
         destruct (update_ok t2) as [t3 U]; [rewrite F4; simpl; fold T; lia|].
         rewrite U. cbn [bind]. eexists; eexists; split; [reflexivity|].
         apply update_index in U as (U1 & U2 & U3 & U4 & U5 & U6 & U7).
-        split.
+        split; [|split].
         -- unfold tree_ok. rewrite U1, U2, U3, U4, F4. simpl. repeat split. right.
            split.
            ++ rewrite <- EP. apply next_pos_ok; fold T; lia.
            ++ destruct A2 as [A21 A22]. unfold arrays_at. rewrite U5, U6. split; assumption.
         -- rewrite U1, F4. simpl. unfold nxt. fold k'. replace (k' =? T) with false by lia. reflexivity.
+        -- intros Hn. unfold ne_ok, cur_x. rewrite U7, U1, F4. simpl. replace (k' =? -1) with false by lia.
+           apply NE2. simpl. unfold ne_ok, cur_x in Hn. replace (t_index t =? -1) with false in Hn by lia. exact Hn.
 Qed.
 
 (* ---- tsk_tree_prev ---- *)
@@ -333,7 +383,8 @@ Proof.
 Qed.
 
 Lemma tree_prev_ok t : tree_ok t ->
-  exists t' r, tree_prev core ts t = Ok (t', r) /\ tree_ok t' /\ t_index t' = prv (t_index t).
+  exists t' r, tree_prev core ts t = Ok (t', r) /\ tree_ok t' /\ t_index t' = prv (t_index t) /\
+               (ne_ok t -> ne_ok t').
 Proof.
   intros H. pose proof H as (Hi & Hl & Hr & Hd).
   assert (PI : pos_inv ts (t_pos t)) by (destruct Hd as [[N _]|[P _]]; [left|right]; assumption).
@@ -346,7 +397,7 @@ Proof.
     assert (EP : p_index (prev_pos ts k) = -1) by (rewrite E; reflexivity).
     rewrite EP. simpl negb. cbv iota.
     eexists; eexists; split; [reflexivity|].
-    split.
+    split; [|split; [|intros _; apply ne_ok_clear]].
     + unfold tree_ok, tree_clear; simpl. repeat split. left. split; [unfold pos_null; simpl; auto|].
       destruct (outside_null ts V (-1) ltac:(lia)) as [P E']. unfold arrays_at; simpl.
       rewrite !map_const, P, E'. unfold zlen in Lp, Le.
@@ -367,7 +418,7 @@ Proof.
       destruct (apply_diffs_prev (with_pos t (mkPos (T - 1) (bp ts (T - 1)) (bp ts T) DRev
                  (cnt_le (RO ts) (bp ts T) - 1) (cnt_lt (RO ts) (bp ts T) - 1) ORem
                  (cnt_le (LI ts) (bp ts T) - 1) (cnt_lt (LI ts) (bp ts T) - 1) OIns)) (bp ts T) (bp ts (T - 1)))
-        as (t2 & D & F & A2); try reflexivity.
+        as (t2 & D & F & A2 & NE2); try reflexivity.
       * exact Ax.
       * apply (v_bp_strict ts V); fold T; lia.
       * intros v Hv. pose proof (between ts V (T - 1) v ltac:(fold T; lia) Hv) as Hb.
@@ -377,12 +428,15 @@ Proof.
         destruct (update_ok t2) as [t3 U]; [rewrite F4; simpl; fold T; lia|].
         rewrite U. cbn [bind]. eexists; eexists; split; [reflexivity|].
         apply update_index in U as (U1 & U2 & U3 & U4 & U5 & U6 & U7).
-        split.
+        split; [|split].
         -- unfold tree_ok. rewrite U1, U2, U3, U4, F4. simpl. repeat split. right.
            split.
            ++ rewrite <- EP. apply prev_pos_ok; fold T; lia.
            ++ destruct A2 as [A21 A22]. unfold arrays_at. rewrite U5, U6. split; assumption.
         -- rewrite U1, F4. simpl. unfold prv. rewrite I0. reflexivity.
+        -- intros Hn. unfold ne_ok, cur_x. rewrite U7, U1, F4. simpl. replace (T - 1 =? -1) with false by lia.
+           apply NE2. simpl. unfold ne_ok, cur_x in Hn. rewrite I0 in Hn. simpl in Hn. rewrite Hn.
+           rewrite !(num_edges_outside ts V); [reflexivity|right; unfold T; rewrite (v_bpT ts V); lia|lia].
     + (* from tree k to tree k - 1 *)
       assert (Hk : k = t_index t) by (subst k; replace (t_index t =? -1) with false by lia; reflexivity).
       clearbody k. subst k. set (k := t_index t) in *.
@@ -394,7 +448,7 @@ Proof.
       destruct (apply_diffs_prev (with_pos t (mkPos (k - 1) (bp ts (k - 1)) (bp ts k) DRev
                  (cnt_le (RO ts) (bp ts k) - 1) (cnt_lt (RO ts) (bp ts k) - 1) ORem
                  (cnt_le (LI ts) (bp ts k) - 1) (cnt_lt (LI ts) (bp ts k) - 1) OIns)) (bp ts k) (bp ts (k - 1)))
-        as (t2 & D & F & A2); try reflexivity.
+        as (t2 & D & F & A2 & NE2); try reflexivity.
       * exact A.
       * apply (v_bp_strict ts V); fold T; lia.
       * intros v Hv. pose proof (between ts V (k - 1) v ltac:(fold T; lia) Hv) as Hb.
@@ -404,12 +458,14 @@ Proof.
         destruct (update_ok t2) as [t3 U]; [rewrite F4; simpl; fold T; lia|].
         rewrite U. cbn [bind]. eexists; eexists; split; [reflexivity|].
         apply update_index in U as (U1 & U2 & U3 & U4 & U5 & U6 & U7).
-        split.
+        split; [|split].
         -- unfold tree_ok. rewrite U1, U2, U3, U4, F4. simpl. repeat split. right.
            split.
            ++ rewrite <- EP. apply prev_pos_ok; fold T; lia.
            ++ destruct A2 as [A21 A22]. unfold arrays_at. rewrite U5, U6. split; assumption.
         -- rewrite U1, F4. simpl. unfold prv. fold k. replace (k =? -1) with false by lia. reflexivity.
+        -- intros Hn. unfold ne_ok, cur_x. rewrite U7, U1, F4. simpl. replace (k - 1 =? -1) with false by lia.
+           apply NE2. simpl. unfold ne_ok, cur_x in Hn. fold k in Hn. replace (k =? -1) with false in Hn by lia. exact Hn.
 Qed.
 
 (* ---- tsk_search_sorted on the breakpoints ---- *)
@@ -459,33 +515,38 @@ Qed.
 
 (* ---- tsk_tree_seek_from_null ---- *)
 
-Lemma edge_loop_wloop_eq sel order d n fuel j stop t :
-  d = 1 \/ d = -1 -> stop = j + d * Z.of_nat n -> (n < fuel)%nat ->
-  (forall p, In p (positions j d n) -> 0 <= p < zlen order) ->
-  edge_loop fuel ts d order (sel_body sel) j stop t = wloop ts sel (map (zn order) (positions j d n)) t.
-Proof. intros Hd -> Hf Hp. apply edge_loop_wloop; assumption. Qed.
-
 Lemma insert_only t y es_i f :
-  arrays_at ts t (-1) ->
+  arrays_at ts t (-1) -> NoDup es_i ->
   (forall e, In e es_i -> 0 <= e < num_edges ts) ->
   (forall e ed, In e es_i -> get (ts_edges ts) e = Ok ed -> f ed = true -> covers ed y = true) ->
   (forall e ed, get (ts_edges ts) e = Ok ed -> covers ed y = true -> In e es_i /\ f ed = true) ->
-  exists t2, wloop ts (sel_ins f) es_i t = Ok t2 /\ frame t t2 /\ arrays_at ts t2 y.
+  exists t2, wloop ts (sel_ins f) es_i t = Ok t2 /\ frame t t2 /\ arrays_at ts t2 y /\
+             (t_num_edges t = num_edges_at ts (-1) -> t_num_edges t2 = num_edges_at ts y).
 Proof.
-  intros A Ri I1 I2.
-  destruct (transition ts V t (-1) y [] es_i f A) as (t1 & t2 & W1 & W2 & F & A2).
-  - intros e He; destruct He.
-  - exact Ri.
-  - intros e ed He; destruct He.
-  - intros e ed G C _. exfalso. pose proof (v_edge ts V _ _ G). unfold covers in C. lia.
-  - exact I1.
-  - intros e ed G C _. apply I2; assumption.
-  - simpl in W1. injection W1 as <-. exists t2. auto.
+  intros A Nd Ri I1 I2.
+  assert (Cm : forall e ed, get (ts_edges ts) e = Ok ed -> covers ed (-1) = false).
+  { intros e ed G. pose proof (v_edge ts V _ _ G). unfold covers. lia. }
+  assert (R1 : forall e ed, In e (@nil Z) -> get (ts_edges ts) e = Ok ed -> covers ed (-1) = true /\ covers ed y = false)
+    by (intros e ed He; destruct He).
+  assert (R2 : forall e ed, get (ts_edges ts) e = Ok ed -> covers ed (-1) = true -> covers ed y = false -> In e (@nil Z)).
+  { intros e ed G C _. rewrite (Cm e ed G) in C. discriminate. }
+  assert (Rr : forall e, In e (@nil Z) -> 0 <= e < num_edges ts) by (intros e He; destruct He).
+  assert (J1 : forall e ed, In e es_i -> get (ts_edges ts) e = Ok ed -> f ed = true ->
+                            covers ed y = true /\ covers ed (-1) = false).
+  { intros e ed He G Hf. split; [apply (I1 e ed He G Hf)|apply (Cm e ed G)]. }
+  assert (J2 : forall e ed, get (ts_edges ts) e = Ok ed -> covers ed y = true -> covers ed (-1) = false ->
+                            In e es_i /\ f ed = true).
+  { intros e ed G C _. apply I2; assumption. }
+  destruct (transition ts V t (-1) y [] es_i f A Rr Ri R1 R2 I1 J2) as (t1 & t2 & W1 & W2 & F & A2).
+  exists t2. split; [|split; [exact F|split; [exact A2|]]].
+  - simpl in W1. injection W1 as <-. exact W2.
+  - apply (transition_ne ts t (-1) y [] es_i f t1 t2); auto. constructor.
 Qed.
 
 Lemma tree_seek_from_null_ok t v : tree_ok t -> t_index t = -1 -> 0 <= v < ts_L ts ->
   exists t', tree_seek_from_null core ts t (Fin v) = Ok t' /\ tree_ok t' /\
-             0 <= t_index t' < T /\ bp ts (t_index t') <= v < bp ts (t_index t' + 1).
+             (0 <= t_index t' < T /\ bp ts (t_index t') <= v < bp ts (t_index t' + 1)) /\
+             (ne_ok t -> ne_ok t').
 Proof.
   intros H I0 Hv.
   destruct (tree_ok_cases t H) as [(_ & N & A)|(K & _)]; [|lia].
@@ -505,8 +566,10 @@ Proof.
     { intros e. unfold es. rewrite In_ids. split.
       - intros [i [Hi Ee]]. exists (j1 + 1 * i). split; [lia|exact Ee].
       - intros [pos [Hp Ee]]. exists (pos - j1). split; [lia|]. rewrite <- Ee. f_equal. lia. }
-    destruct (insert_only (with_pos t p) a es (fun ed => (e_left ed <=? a) && (a <? e_right ed))) as (t2 & W & Fr & A2).
+    destruct (insert_only (with_pos t p) a es (fun ed => (e_left ed <=? a) && (a <? e_right ed))) as (t2 & W & Fr & A2 & NE2).
     + exact A.
+    + apply NoDup_ids; [apply (NoDup_I ts V)|left; reflexivity|].
+      intros q Hq. apply In_positions in Hq as [i [Hi ->]]. rewrite (v_I_len ts V). fold M. lia.
     + intros e He. apply InE in He as [pos [Hp <-]]. apply (v_I_rng ts V). fold M. lia.
     + intros e ed _ _ C. exact C.
     + intros e ed G C. split; [|exact C]. apply InE.
@@ -526,7 +589,9 @@ Proof.
       destruct (update_ok t2) as [t3 U]; [rewrite Fr4; simpl; fold T; lia|].
       rewrite U. eexists; split; [reflexivity|].
       apply update_index in U as (U1 & U2 & U3 & U4 & U5 & U6 & U7).
-      rewrite U1, Fr4. simpl. split; [|split; [fold T; lia|exact Hb]].
+      rewrite U1, Fr4. simpl. split; [|split; [split; [fold T; lia|exact Hb]|]].
+      2:{ intros Hn. unfold ne_ok, cur_x. rewrite U7, U1, Fr4. simpl. replace (k =? -1) with false by lia.
+          apply NE2. simpl. unfold ne_ok, cur_x in Hn. rewrite I0 in Hn. exact Hn. }
       unfold tree_ok. rewrite U1, U2, U3, U4, Fr4. simpl. repeat split. right. split.
       * unfold pos_ok; simpl. fold T. repeat split; lia.
       * destruct A2 as [A21 A22]. unfold arrays_at. rewrite U5, U6. split; assumption.
@@ -542,8 +607,10 @@ Proof.
     { intros e. unfold es. rewrite In_ids. split.
       - intros [i [Hi Ee]]. exists (j1 + -1 * i). split; [lia|exact Ee].
       - intros [pos [Hp Ee]]. exists (j1 - pos). split; [lia|]. rewrite <- Ee. f_equal. lia. }
-    destruct (insert_only (with_pos t p) (bp ts k) es (fun ed => (b <=? e_right ed) && (e_left ed <? b))) as (t2 & W & Fr & A2).
+    destruct (insert_only (with_pos t p) (bp ts k) es (fun ed => (b <=? e_right ed) && (e_left ed <? b))) as (t2 & W & Fr & A2 & NE2).
     + exact A.
+    + apply NoDup_ids; [apply (NoDup_O ts V)|right; reflexivity|].
+      intros q Hq. apply In_positions in Hq as [i [Hi ->]]. rewrite (v_O_len ts V). fold M. lia.
     + intros e He. apply InE in He as [pos [Hp <-]]. apply (v_O_rng ts V). fold M. lia.
     + intros e ed _ G C. destruct (endpoints_of e ed G) as (EL & ER & R1 & R2).
       pose proof (between ts V k _ Hk EL). pose proof (between ts V k _ Hk ER). fold b in H0, H1.
@@ -567,7 +634,9 @@ Proof.
       destruct (update_ok t2) as [t3 U]; [rewrite Fr4; simpl; fold T; lia|].
       rewrite U. eexists; split; [reflexivity|].
       apply update_index in U as (U1 & U2 & U3 & U4 & U5 & U6 & U7).
-      rewrite U1, Fr4. simpl. split; [|split; [fold T; lia|exact Hb]].
+      rewrite U1, Fr4. simpl. split; [|split; [split; [fold T; lia|exact Hb]|]].
+      2:{ intros Hn. unfold ne_ok, cur_x. rewrite U7, U1, Fr4. simpl. replace (k =? -1) with false by lia.
+          apply NE2. simpl. unfold ne_ok, cur_x in Hn. rewrite I0 in Hn. exact Hn. }
       unfold tree_ok. rewrite U1, U2, U3, U4, Fr4. simpl. repeat split. right. split.
       * unfold pos_ok; simpl. fold T. fold b. repeat split; lia.
       * destruct A2 as [A21 A22]. unfold arrays_at. rewrite U5, U6. split; assumption.
